@@ -146,6 +146,8 @@ pub(crate) enum Message {
     #[cfg(feature = "internal")]
     PackageTxs(Request<Option<u64>, Vec<TxEntry>>),
     SubmitLocalTestTx(Request<TransactionView, SubmitTxResult>),
+    #[cfg(ckb_verif)]
+    VerifDump(Request<(), crate::verif::VerifPoolDump>),
 }
 
 #[derive(Debug, Hash, Eq, PartialEq)]
@@ -472,6 +474,12 @@ impl TxPoolController {
     /// get total recent reject num
     pub fn get_total_recent_reject_num(&self) -> Result<Option<u64>, AnyError> {
         send_message!(self, GetTotalRecentRejectNum, ())
+    }
+
+    /// Verification hook: dump the pool's contents and bookkeeping under the pool lock.
+    #[cfg(ckb_verif)]
+    pub fn verif_dump(&self) -> Result<crate::verif::VerifPoolDump, AnyError> {
+        send_message!(self, VerifDump, ())
     }
 }
 
@@ -1061,6 +1069,14 @@ async fn process(mut service: TxPoolService, message: Message) {
             );
             if let Err(e) = responder.send(txs) {
                 error!("Responder sending plug_entry failed {:?}", e);
+            };
+        }
+        #[cfg(ckb_verif)]
+        Message::VerifDump(Request { responder, .. }) => {
+            let mut tx_pool = service.tx_pool.write().await;
+            let dump = crate::verif::dump(&mut tx_pool);
+            if let Err(e) = responder.send(dump) {
+                error!("Responder sending verif_dump failed {:?}", e)
             };
         }
         Message::GetTotalRecentRejectNum(Request { responder, .. }) => {
